@@ -10,7 +10,11 @@ pub mod c04;
 pub mod strfam;
 pub mod c05;
 pub mod c06;
+pub mod c08;
 pub mod c12;
+pub mod c13;
+pub mod c14;
+pub mod c15;
 pub mod c16;
 pub mod c18;
 pub mod c19;
@@ -47,7 +51,7 @@ pub struct PropDef {
 }
 
 pub fn all() -> Vec<PropDef> {
-    vec![c01::def(), c02::def(), c03::def(), c04::def(), c05::def(), c06::def(), c12::def(), c16::def(), c18::def(), c19::def(), c20::def()]
+    vec![c01::def(), c02::def(), c03::def(), c04::def(), c05::def(), c06::def(), c08::def(), c12::def(), c13::def(), c14::def(), c15::def(), c16::def(), c18::def(), c19::def(), c20::def()]
 }
 
 pub fn get(id: &str) -> Option<PropDef> {
